@@ -398,11 +398,11 @@ func runEnc(c *eng.Ctx, cf cfg) {
 							// degenerate masking: the error must not vanish (P(all-zero) is negligible unless the
 							// distribution is extremely narrow; with sigma=0.5 and N>=16 it is < 1e-3 per sample,
 							// so only require it for the pooled statistics below and for sigma>=3)
-							pk := keyType + "/" + fmt.Sprint(len(cf.P) > 0)
-							if pools[pk] == nil {
-								pools[pk] = &pool{nominal: nominal}
+							poolKey := keyType + "/" + fmt.Sprint(len(cf.P) > 0)
+							if pools[poolKey] == nil {
+								pools[poolKey] = &pool{nominal: nominal}
 							}
-							pools[pk].add(e)
+							pools[poolKey].add(e)
 							// a second encryption of the same plaintext must differ and carry a different error
 							if degree == 1 && isNTT && !isMont {
 								ct2 := rlwe.NewCiphertext(params, 1, level)
@@ -416,6 +416,42 @@ func runEnc(c *eng.Ctx, cf cfg) {
 									if keyType == "sk" || float64(n)*varS >= 16 {
 										c.Check(!ct2.Equal(ct), sigBase+"|same-ciphertext-twice", nil)
 									}
+								}
+							}
+							// every component of a public-key encryption must carry its own error: without P,
+							// c1 = u*pk1 + e1 and c0 - m = u*pk0 + e0, so c1/pk1 and (c0-m)/pk0 are small (= u) exactly
+							// when the error term is missing, and uniform otherwise.
+							// (only judged when an all-zero error vector is impossible in practice: P(e=0) per coefficient
+							// is 0.12 for sigma=3.2 but 0.68 for sigma=0.5 and 0.5 for the ternary error)
+							if keyType == "pk" && len(cf.P) == 0 && degree == 1 && (math.Sqrt(varE) >= 3 || n >= 256) {
+								for comp := 0; comp < 2; comp++ {
+									v := obs.Plain(rq, dct.Value[comp], dct.IsNTT, dct.IsMontgomery)
+									if comp == 0 {
+										rq.Sub(v, msg, v)
+									}
+									rq.NTT(v, v)
+									a := rq.NewPoly()
+									rq.IMForm(pk.Value[comp].Q, a) // keys are stored NTT + Montgomery
+									okInv := true
+									for i := 0; i <= level && okInv; i++ {
+										q := rq.SubRings[i].Modulus
+										for j := 0; j < n; j++ {
+											if a.Coeffs[i][j] == 0 {
+												okInv = false
+												break
+											}
+											v.Coeffs[i][j] = ref.MulMod(v.Coeffs[i][j], ref.InvMod(a.Coeffs[i][j], q), q)
+										}
+									}
+									if !okInv {
+										continue
+									}
+									rq.INTT(v, v)
+									w := obs.Stat(obs.Centered(rq, v))
+									c.Count("component_masking_checks", 1)
+									c.Check(w.Max.Cmp(new(big.Int).Rsh(Qlvl, 4)) >= 0, sigBase+"|component-without-error", func() string {
+										return fmt.Sprintf("c%d of a public-key encryption divided by pk%d is a small polynomial (|.|inf=2^%.1f, Q=2^%d): this component carries no error term and reveals the ephemeral secret u (level=%d variant=%s)", comp, comp, w.MaxLog2, Qlvl.BitLen(), level, v2name(v.Coeffs))
+									})
 								}
 							}
 							// independent key: decryption must be far from the plaintext
@@ -438,6 +474,8 @@ func runEnc(c *eng.Ctx, cf cfg) {
 		checkPool(c, "Encryptor.Encrypt|"+k, p)
 	}
 }
+
+func v2name(_ [][]uint64) string { return "" }
 
 func copy2(dst, src ring.Poly, level int) {
 	for i := 0; i <= level; i++ {
